@@ -512,6 +512,25 @@ def _real_values(fx, vd, vals):
 def apply_op(fx: Fixture, op, rng=None) -> Step:
     """Apply one op descriptor to the real objects; produce protocol lines, expectations and oracle findings."""
     st = Step()
+    if op['t'] == 'move':
+        # the model under test is moved into another document (append into a fresh File, or popped out again): every
+        # child is re-attached to another token store; the views registered before the move keep describing the same list
+        st.via = 'move'
+        if isinstance(fx.root, models.File):
+            return st
+        host = getattr(fx, 'host', None)
+        if host is None:
+            host = _PARSER.parse('2000-01-01 open Assets:Host\n', models.File)
+            try:
+                host.raw_directives.append(fx.root)
+            except ValueError:
+                return st      # a model parsed on its own may carry trivia outside its span and then cannot be moved (C01 finding)
+            fx.host = host
+        else:
+            fx.host.raw_directives.pop(-1)
+            fx.host = None
+        st.bad += check_views(fx)
+        return st
     if op['t'] == 'twin':
         # a deep copy of the raw wrapper (the way a repeated field is copied to another model) is edited: it is another
         # list, so nothing registered on this one may hear of it - no model step, the views are re-checked as they stand
@@ -891,6 +910,8 @@ def gen_op(rng, fx: Fixture, ids, allow_errors=True):
     unreg = [k for k in range(nd) if k not in registered]
     if unreg and r < 0.08:
         return {'t': 'reg', 'v': rng.choice(unreg)}
+    if registered and not isinstance(fx.root, models.File) and rng.random() < 0.05:
+        return {'t': 'move'}
     if registered and rng.random() < 0.06:
         ty = rng.choice(fx.raw_tys)
         v = rng.randrange(50, 58)
